@@ -713,6 +713,7 @@ class LossExec:
         self.facts = {}          # name -> Fact
         self.xsrc = {}           # vector name -> Fact it is the data vector of
         self.losses, self.grads = [], []
+        self.metric_tests = []
         self.forms = {}          # name -> Quad | L1Norm (a loss term kept in a local)
         self.tuples = {}         # name -> element expressions of a tuple display
         self.ctors = {}          # name -> Factor(...) construction kept in a local
@@ -811,6 +812,7 @@ class LossExec:
             return        # bookkeeping on the estimator object (cache resets and the like): no part of the loss value
         if isinstance(s, ast.If):
             if self.is_metric_test(s.test):
+                self.metric_tests.append(s.test)
                 c = s.test.comparators[0].value
                 hit = (c == self.metric) == isinstance(s.test.ops[0], ast.Eq)
                 self.run(s.body if hit else s.orelse)
@@ -913,6 +915,18 @@ def check_loss(ctx, fi):
             if f is not None:
                 ex.facts[s.targets[0].id] = f
         ex.run(inner.body)
+        # ---- which metric decides the branch: the one REQUESTED for this evaluation (the metric parameter, defaulted to the engine's own when None) -----
+        if metric == 'L1':
+            mp = next((p_ for p_ in fi.params if p_ == 'metric'), None)
+            for t_ in ex.metric_tests:
+                left = U(t_.left)
+                if mp is not None and left != mp:
+                    if left == 'self.' + mp:
+                        ctx.ob('loss-form', fi, t_, False, 'the branch for the absolute / squared residual is chosen by `%s`, the ENGINE\'s metric, not by the metric '
+                               'requested for this evaluation (`%s`, which defaults to it): an explicit metric= is ignored' % (left, mp),
+                               construct='metric test of the loss')
+                    else:
+                        raise AnalysisError('%s: the loss form is chosen by `%s`, which is not the metric parameter' % (fi.qualname, U(t_)[:60]))
         # ---- where x comes from ---------------------------------------------------------------------------------
         xf = ex.xfact
         if shape == 'grouped':
